@@ -11,12 +11,16 @@ cd "$W/repo" || exit 2
 git apply "$SEED/patch.diff" || { echo "RESULT $(basename $SEED): patch does not apply"; exit 2; }
 export CARGO_NET_OFFLINE=true
 SUITE=$(/verif/tools/repo_tests.sh "$W/repo" | tail -1)
-cp "$SEED/demo.rs" tests/seed_demo.rs
-cargo test --offline --test seed_demo >"$W/demo_with.log" 2>&1; DW=$?
-git apply -R "$SEED/patch.diff"
-cargo test --offline --test seed_demo >"$W/demo_without.log" 2>&1; DWO=$?
-rm -f tests/seed_demo.rs
-git apply "$SEED/patch.diff"
+if [ -f "$SEED/demo.rs" ]; then
+  cp "$SEED/demo.rs" tests/seed_demo.rs
+  cargo test --offline --test seed_demo >"$W/demo_with.log" 2>&1; DW=$?
+  git apply -R "$SEED/patch.diff"
+  cargo test --offline --test seed_demo >"$W/demo_without.log" 2>&1; DWO=$?
+  rm -f tests/seed_demo.rs
+  git apply "$SEED/patch.diff"
+else
+  DW=none; DWO=none   # behaviour-preserving change: no demonstration, every check must stay quiet
+fi
 mkdir -p "$W/mcx" "$W/out"
 cp -r /verif/mcx/src /verif/mcx/Cargo.toml /verif/mcx/Cargo.lock "$W/mcx/"
 sed -i "s#path = \"/repo\"#path = \"$W/repo\"#" "$W/mcx/Cargo.toml"
